@@ -21,6 +21,14 @@ fn extra_palette() -> Vec<MLabel> {
     for n in [23usize, 24, 255, 256] {
         v.push(MLabel::Text("k".repeat(n)));
     }
+    // equal-length labels that differ only after a long common prefix
+    for (a, b) in [("subject-key-id-0", "subject-key-id-1"), ("aaaaaaaaaaaaaaaaaaaaaaaaaaaaaa0", "aaaaaaaaaaaaaaaaaaaaaaaaaaaaaa1"), ("prefix-15-bytes0", "prefix-15-bytes1")] {
+        v.push(MLabel::Text(b.to_string()));
+        v.push(MLabel::Text(a.to_string()));
+    }
+    for i in [0x0102_0304_0506_0708i64, 0x0102_0304_0506_0709, -0x0102_0304_0506_0708, -0x0102_0304_0506_0709] {
+        v.push(MLabel::Int(i));
+    }
     v
 }
 
